@@ -8,7 +8,7 @@ PROPS = {
     "C03": {
         "files": ["a2lfile/src/tokenizer.rs", "a2lfile/src/parser.rs", "a2lfile/src/a2ml.rs", "a2lfile/src/ifdata.rs", "a2lfile/src/loader.rs"],
         "trusted": T_STD,
-        "assumptions": ["texts over the stated alphabets / prefix families only; the generated element parsers are outside the claim", "file access (loader::load, make_include_filename) is an environment stub in E2: every include file is unreadable"],
+        "assumptions": ["texts over the stated alphabets / prefix families only; the generated element parsers are outside the claim", "file access is an environment model in E2: File::open / read_data / Path::exists consult a per-path virtual file system (only files written by the harness exist); make_include_filename itself is executed from MIR"],
         "jobs": [
             {"engine": "E2", "module": "tokenizer", "harness": "h_find_string_end_6", "functions": ["tokenizer::find_string_end"],
              "bound": "all byte strings of length 6 (full byte range), any start <= 6", "timeout": 200},
@@ -369,7 +369,7 @@ PROPS = {
     },
     "C16": {
         "files": ["a2lfile/src/tokenizer.rs", "a2lfile/src/loader.rs", "a2lfile/src/writer.rs", "a2lfile/src/parser.rs", "a2lfile/src/specification.rs", "a2lfile/src/lib.rs"],
-        "trusted": T_STD + ["file access modelled by a per-path virtual file system (File::open / read_data); make_include_filename returns the name as written (directories are not modelled)"],
+        "trusted": T_STD + ["file access modelled by a per-path virtual file system with directories (File::open / read_data / Path::exists; root = current directory); std::path operations (parent, join, is_absolute) are modelled on concrete strings; make_include_filename is executed from MIR"],
         "assumptions": ["documents of three block-level elements split at element boundaries into main file + inc1 + inc2 (inc2 included from inc1); quoted and unquoted names; all files in one directory",
                         "A2ML includes, sub-directories and path separators are outside the claim"],
         "jobs": [
@@ -377,6 +377,8 @@ PROPS = {
              "bound": "36 splittings x {quoted, unquoted} x {with, without a further include behind the nested one}", "timeout": 400, "extra_modules": ["tokenizer"], "validate": 36},
             {"engine": "E2", "module": "lib", "harness": "h_include_missing", "functions": ["load", "tokenizer::tokenize", "loader::load"],
              "bound": "missing include file, directly or nested, quoted or unquoted", "timeout": 200, "extra_modules": ["tokenizer"]},
+            {"engine": "E2", "module": "lib", "harness": "h_include_paths", "functions": ["load", "loader::make_include_filename", "loader::load", "tokenizer::tokenize (include handling)", "a2ml::tokenize_include", "A2lFile::write_to_string", "A2lFile::merge_includes"],
+             "bound": "main file in the current directory or one below x separator / or \\ x quoted / unquoted x with / without an A2ML include inside the included fragment; nested include in a sub-directory with decoy files of the same name next to the main file and in the current directory (16 file systems)", "timeout": 400, "extra_modules": ["tokenizer"], "must_cover": ["include_paths_end"], "validate": 16},
         ],
     },
     "C06": {
